@@ -985,6 +985,9 @@ def check(ctx: Ctx):
     from ..rules import purity as _pur
 
     _pur.check_mutable_defaults(ctx, ("droplets.image_analysis", "droplets.emulsions", "droplets.droplets", "droplets.droplet_tracks", "droplets.trackers"))
+    from ..rules import support as _sup_r11
+
+    _sup_r11.check_params_not_rebound(ctx, "droplets.image_analysis.refine_droplets", ("phase_field", "candidates", "kwargs"))
     ctx.expect("MUTDEFAULT", 5)
     ctx.expect("PARMAP", 16)
     ctx.expect("EFFECT", 7)
